@@ -33,6 +33,26 @@ CHECKS = {
   text="validate_iff_allowed: for every dictionary satisfying the decidable schemaWF (evaluated by the compiled model on FIX44.xml and TT-FIX44.xml every run), every value verdict and every message tree at any depth, validate = ok iff Allowed (spec written independently: type known, required members incl. groups present, every tag known and allowed incl. header/trailer, plain vs group kind, valid values, per group item: members only, dictionary order, first member, required members, recursively); validate_error_kind: every rejection is FIXMessageError, no hypotheses; single-fault corollaries per mutation class at any depth; resolve_perm: component resolution gives the same result for every permutation of the declaration list (no acyclicity hypothesis). The library's XML parser is compared with an independent reference reader, also under permuted <components>.",
   ref="DESIGN.md §6 C15",
   note=DEFAULT_NOTE + " Value validity is an abstract parameter here (C19 decides it); parse-time KeyError/ValueError on malformed dictionaries and the header-before-components order are not modelled; CheckSum(10) is exempt as in the code."),
+ "C19": dict(
+  technique="Lean 4 proof over hand-written models of validate_value and CPython int()/float()/re/_strptime + exhaustive small-scope differential correspondence + independent Python lexical-space oracle",
+  text="impl_iff: for all strings (lists of code points) and every dispatch branch with a FIX datatype (int, SeqNum/NumInGroup, DayOfMonth, the six float types, String/MultipleValueString, char, Boolean, Country/Currency/Exchange, UTCDateOnly/LocalMktDate, UTCTimestamp, UTCTimeOnly, MonthYear): accepted <-> (in the FIX 4.4 lexical space AND not in the explicit too-narrow set) OR explicit deviation (six fraction digits); Boolean, codes and data exact; enum_exact: enumerated fields accept exactly their enumerators; error_kind / rejection_is_fme: only FIXMessageError escapes, no hypothesis; length_accepts_everything: LENGTH is unvalidated (pinned finding). The narrow/deviation sets are the 8 open known findings (int() 4300-digit limit, float overflow, '=' in String [pinned], year 0000, second 60, six fraction digits [pinned], LENGTH [pinned]), each refuted for the full statement by a kernel-checked witness. Model compared with the implementation on all strings of length <= 3 (quick) / <= 4 (thorough) per datatype over a 16-character alphabet, all single-edit neighbours of 43 date/time exemplars, every enumerated field of both dictionaries (1.6M / 9.5M evaluations).",
+  ref="DESIGN.md §6 C19",
+  note=DEFAULT_NOTE + " Trusted: the SPEC recognisers (choices: '.5' and '5.' are floats; codes are 1..n ASCII alphanumerics; Length positive int; year 0000 is a leap year; MultipleValueString = String), the CPython models of int()/float()/re/_strptime (compared one level down with the interpreter), generated Unicode digit/space tables checked against the interpreter on all code points each run."),
+ "C17": dict(
+  technique="Lean 4 proof (inductive invariant over order + FIFO queues + reference exchange; local invariants over arbitrary call sequences; regex model; table facts by decide +kernel on the generated table) + step-by-step differential correspondence of the real FIXNewOrderSingle against the compiled model (random interleavings, arbitrary reports, exhaustive bounded interleavings)",
+  text="Theorems for all call sequences / all interleavings and all grid prices and quantities: status always an enum member; orig_clord_id only while a request is pending (or canceled) and no second request can be built meanwhile; can_cancel/can_replace imply the builder succeeds (replace: when price or qty changes); ClOrdIDs never repeat for any root and are root--k for every non-empty root not ending in --digits (clord_root characterised exactly: unchanged iff not of the chain form, chained ids always cut back to the root); convergence at every quiescent point (status, cum, leaves, price, qty equal the reference exchange's; finished exchange order => is_finished and requests refused), no report ever raises, at most one request in flight whose OrigClOrdID is the exchange's live id - for every interleaving that does not expire a suspended order or accept a replace on one (partial: those two races are pinned known findings, refuted for the full statement by kernel-evaluated witnesses that the harness replays on the real object).",
+  ref="DESIGN.md §6 C17",
+  note="Trusted: Lean kernel; the reference exchange as spec (exists twice, Lean and Python, compared report by report); hand model of the five methods, the regex and str(float)/str(int), tied by correspondence every run; float arithmetic only on the 1/8 grid below 2^46; FIXMessage/Enum/float() semantics assumed; translators for the transition table and the \\d code points."),
+ "C10": dict(
+  technique="Lean 4 proof (loop invariant over the field loop, list-surgery lemmas on find/split/join, well-founded read loop) over a hand-written decoder/reader model + differential correspondence with Codec.decode and the real socket_read_task + independent CheckSum/BodyLength recomputation as oracle",
+  text="For every byte string, group table and BeginString: decode never raises (decode_no_raise: invariant that group-tag entries are group nodes), consumed <= len, a message consumes > 0 bytes, the read loop never stalls or raises and terminates (well-founded definition; readLoop_never_stalls); a returned frame is pre||SOH 10=ddd SOH with ddd exactly three digits = byte sum mod 256 (checksum_sound); no single-byte substitution anywhere in a returned frame, and no sum-changing or CheckSum-value edit, is ever returned (no_substitution_returned, edit_in_summed_region_rejected); decode consumes nothing only in four characterised waiting states and, once a complete CheckSum field is buffered, the wait ends at the declared length for every continuation (no_permanent_stall, closed_frame_wait_bounded, following_frame_unblocks). BodyLength consistency is NOT guaranteed: C10_full is refuted by the frame of the existing unit test test_decode_custom_msg_type (9=82, 84 body bytes) and by a NUL insertion - open pinned finding C10-bodylength-not-verified.",
+  ref="DESIGN.md §6 C10",
+  note=DEFAULT_NOTE + " 57k (thorough 451k) differential evaluations per run incl. live-reader runs; CPython int()/str.split/find semantics modelled and compared every run."),
+ "C11": dict(
+  technique="Lean 4 proof over a hand-written executable model of connection.py/session.py (compositional trace relations, Hoare-style specs, induction over histories) + exhaustive single-step correspondence (48k steps, whole post-state) and lock-step random histories against the real AsyncFIXConnection",
+  text="For all counters, journals, CompIDs, message contents and histories: sends other than Logon/Logout before the Logon exchange are refused with the connection exactly unchanged (prelogon_send_refused); in NETWORK_CONN_ESTABLISHED / LOGON_INITIAL_SENT no frame is delivered and a first non-Logon frame drops the connection with nothing written and counters/journal untouched (prelogon_no_delivery, prelogon_first_frame_dropped); each integrity defect (BeginString wrong, CompIDs missing / wrong / swapped, MsgSeqNum missing / non-numeric / too low) leads to no delivery, unchanged inbound counter, DISCONNECTED_BROKEN_CONN, and exactly one Logout carrying the reason iff the counterparty is identifiable (integrity_defect_logout / _unidentifiable); after any disconnect no frame, callback or state change until the next connect, for every history (after_disconnect_silent); every transition into a disconnected state emits exactly one onDisconnect (disconnect_once_step; history version under the hypothesis that connect() is only called when disconnected). Documented tolerance in the statements: SequenceReset and PossDup duplicates while awaiting a resend are exempt from 'too low'.",
+  ref="DESIGN.md §6 C11",
+  note=DEFAULT_NOTE + " Uniformity of the code in the counter values is sampled (5 counter pairs incl. >= 2^32); application hooks return normally and do not re-enter."),
 }
 NOT_YET = "check under construction in this build round (model and theorems planned in DESIGN.md §6); not yet claimed"
 
